@@ -252,9 +252,11 @@ def main(tier_: str) -> int:
                 lines += roundtrip_lines(rng, tier_)
         for i, ln in enumerate(lines):
             ln['tid'] = i + 1
+        # a media request with a legal event schedule that is answered 5xx delivers none of its events: judged by the trace
+        # specification (ev "fail"); 4xx answers (a schedule the service refuses) are not C14's business
         fails = [x for x in lines if x['ev'] == 'fail']
-        if len(fails) > 5:
-            raise MachineryFailure(f'{len(fails)} event requests refused: {fails[:2]}')
+        for x in fails:
+            x.setdefault('sch', {})
         vs, st = validate_trace('EventsTrace', lines, workdir=d, chunk=8000, parallel=12)
         drift = 0
         seen: set[str] = set()
